@@ -28,6 +28,8 @@ type EvalCtx struct {
 	depth  int
 	outer  *State
 	prev   *State
+	pre    *State
+	mode   int // 1: goal position (skolemise universally quantified conjuncts)
 }
 
 func (f *Frame) evalCtx(st *State, reach string) *EvalCtx {
@@ -241,6 +243,44 @@ func (ev *EvalCtx) pkgConst(pkg, name string) (SVal, bool) {
 
 func (ev *EvalCtx) eval(e *Expr) (SVal, error) {
 	c := ev.c
+	if ev.mode == 1 {
+		switch {
+		case e.Op == "binary" && e.Name == "&&":
+			x, err := ev.eval(e.Args[0])
+			if err != nil {
+				return SVal{}, err
+			}
+			y, err := ev.eval(e.Args[1])
+			if err != nil {
+				return SVal{}, err
+			}
+			return SVal{T: "(and " + x.T + " " + y.T + ")", S: "Bool"}, nil
+		case e.Op == "binary" && e.Name == "==>" && e.Args[0].Op == "forall":
+			t, err := c.goalWithQuantifiedAntecedent(e, ev)
+			return SVal{T: t, S: "Bool"}, err
+		case e.Op == "binary" && e.Name == "==>":
+			n := *ev
+			n.mode = 0
+			g, err := n.evalBool(e.Args[0])
+			if err != nil {
+				return SVal{}, err
+			}
+			y, err := ev.eval(e.Args[1])
+			if err != nil {
+				return SVal{}, err
+			}
+			return SVal{T: "(=> " + g + " " + y.T + ")", S: "Bool"}, nil
+		case e.Op == "forall":
+			t, err := c.skolemiseForall(e, ev)
+			return SVal{T: t, S: "Bool"}, err
+		case e.Op == "call" && c.eng.cs.Preds[e.Name] != nil:
+			// keep goal mode through pred expansion
+		default:
+			n := *ev
+			n.mode = 0
+			return n.eval(e)
+		}
+	}
 	switch e.Op {
 	case "int":
 		n, err := strconv.ParseInt(e.Name, 0, 64)
@@ -632,6 +672,12 @@ func (ev *EvalCtx) evalCall(e *Expr) (SVal, error) {
 		}
 		// inside old(), locals still denote... the entry state has no locals except parameters
 		return n.eval(e.Args[0])
+	case "pre":
+		if ev.pre == nil {
+			return SVal{}, fmt.Errorf("pre() used outside a loop clause")
+		}
+		n := ev.with(ev.pre)
+		return n.eval(e.Args[0])
 	case "prev":
 		if ev.prev == nil {
 			return SVal{}, fmt.Errorf("prev() used outside a transition clause")
@@ -795,36 +841,10 @@ func (ev *EvalCtx) evalCall(e *Expr) (SVal, error) {
 		return SVal{T: app(e.Name, ts...), S: sig.res}, nil
 	}
 	if p, ok := c.eng.cs.Preds[e.Name]; ok {
-		if ev.depth > 20 {
-			return SVal{}, fmt.Errorf("pred expansion too deep (recursive pred %s?)", e.Name)
-		}
-		a, err := ev.evalArgs(e.Args)
+		n, err := ev.enterPred(p, e)
 		if err != nil {
 			return SVal{}, err
 		}
-		if len(a) != len(p.Params) {
-			return SVal{}, fmt.Errorf("pred %s expects %d arguments", e.Name, len(p.Params))
-		}
-		n := *ev
-		n.vars = map[string]SVal{}
-		for k, v := range ev.vars {
-			if strings.Contains(v.T, "!q") || strings.HasPrefix(k, "$") {
-				n.vars[k] = v
-			}
-		}
-		for i, prm := range p.Params {
-			_, gt := c.eng.resolveType(p.Pkg, prm.Type)
-			v := a[i]
-			if v.GT == nil {
-				v.GT = gt
-			} else if gt != nil {
-				v.GT = gt
-			}
-			n.vars[prm.Name] = v
-		}
-		n.pkg = p.Pkg
-		n.frame = nil
-		n.depth++
 		return n.eval(p.Body)
 	}
 	if sf, ok := c.eng.cs.Specs[e.Name]; ok {
@@ -1045,4 +1065,40 @@ func (ev *EvalCtx) useAxiom(u *Clause) {
 	}
 	c.usedAxioms[ax.Name] = true
 	c.assume(ev.reach, body)
+}
+
+// enterPred binds the parameters of a pred (macro) to the evaluated arguments of a call.
+func (ev *EvalCtx) enterPred(p *Pred, e *Expr) (*EvalCtx, error) {
+	c := ev.c
+	if ev.depth > 20 {
+		return nil, fmt.Errorf("pred expansion too deep (recursive pred %s?)", e.Name)
+	}
+	am := *ev
+	am.mode = 0
+	a, err := am.evalArgs(e.Args)
+	if err != nil {
+		return nil, err
+	}
+	if len(a) != len(p.Params) {
+		return nil, fmt.Errorf("pred %s expects %d arguments", e.Name, len(p.Params))
+	}
+	n := *ev
+	n.vars = map[string]SVal{}
+	for k, v := range ev.vars {
+		if strings.Contains(v.T, "!q") || strings.HasPrefix(k, "$") || strings.HasPrefix(v.T, "sk.") || strings.HasPrefix(v.T, "wit.") {
+			n.vars[k] = v
+		}
+	}
+	for i, prm := range p.Params {
+		_, gt := c.eng.resolveType(p.Pkg, prm.Type)
+		v := a[i]
+		if gt != nil {
+			v.GT = gt
+		}
+		n.vars[prm.Name] = v
+	}
+	n.pkg = p.Pkg
+	n.frame = nil
+	n.depth++
+	return &n, nil
 }
